@@ -60,12 +60,16 @@ pub fn check_logs(logs: &[Vec<VerifSeal>; 2], case: &Value, out: &mut Vec<Viol>)
                     return (0, false);
                 }
             } else {
-                // a key seen for the first time by this end: fresh sequence, not the continuation of the previous key's
-                if let Some(prev_fp) = order.last() {
-                    let mut cont = last[prev_fp];
-                    cont = verif_increment(cont);
+                // a key seen for the first time by this end: fresh sequence, not the continuation of the sequence of
+                // any earlier key of this end (the previous one, or the one that occupied the same slot 4 rotations ago)
+                for (age, prev_fp) in order.iter().rev().enumerate() {
+                    let cont = verif_increment(last[prev_fp]);
                     if cont == s.nonce {
-                        out.push(Viol::new("rotated-key-continues-old-sequence", format!("end {}: a new key starts exactly where the previous key's counter stopped", side), case.clone()));
+                        out.push(Viol::new(
+                            "rotated-key-continues-old-sequence",
+                            format!("end {}: a new key starts exactly where the counter of the key used {} rotations earlier stopped ({})", side, age + 1, hex(&s.nonce)),
+                            case.clone(),
+                        ));
                     }
                 }
                 order.push(s.fingerprint);
